@@ -186,7 +186,8 @@ class Carrier:
             self.buf[:self.n] = b'\xa5' * self.n
 
 
-def feed(cls, data, cuts, empties=(), queries=False, monitor=True, per_chunk=None, carrier='bytes', ctor_kw=None):
+def feed(cls, data, cuts, empties=(), queries=False, monitor=True, per_chunk=None, carrier='bytes', ctor_kw=None,
+         clone_at=None, clone_how='deepcopy'):
     """Drive a real inspector of class cls over data cut at `cuts`.
 
     Returns dict(verdict=..., raised=type name or None, monitor=RegionMonitor, trace=[...]).
@@ -202,6 +203,12 @@ def feed(cls, data, cuts, empties=(), queries=False, monitor=True, per_chunk=Non
     pieces = chunks_of(n, cuts)
     car = Carrier(carrier, max([b - a for a, b in pieces] or [1]))
     for idx, (a, b) in enumerate(pieces):
+        if clone_at is not None and idx == clone_at:
+            # the rest of the stream goes to a copy of the inspector (copy.deepcopy / a pickle round trip): a copied
+            # object that has seen the same bytes concludes the same
+            import copy
+            import pickle
+            insp = copy.deepcopy(insp) if clone_how == 'deepcopy' else pickle.loads(pickle.dumps(insp))
         if idx in empties:
             try:
                 insp.eat_chunk(b'')
@@ -233,12 +240,19 @@ class RecordingSource(io.BytesIO):
     """plan: optional list of piece lengths; when given, read(n) returns at most the next planned piece (a pipe- or
     socket-like source that hands back short reads), never an empty result before the real end."""
 
-    def __init__(self, data, plan=None):
+    def __init__(self, data, plan=None, fail_at=()):
         super().__init__(data)
         self.reads = []
         self.plan = list(plan) if plan else None
+        self.fail_at = set(fail_at)       # read-call numbers that fail once with a transient error, consuming nothing
+        self.ncalls = 0
 
     def read(self, n=-1):
+        self.ncalls += 1
+        if self.ncalls in self.fail_at:
+            self.fail_at.discard(self.ncalls)
+            self.ncalls -= 1
+            raise TimeoutError('transient source error (injected by the harness)')
         if self.plan and n != 0:
             want = self.plan.pop(0)
             n = want if n is None or n < 0 else min(n, want)
@@ -247,11 +261,20 @@ class RecordingSource(io.BytesIO):
         return r
 
 
-def feed_wrapper(data, cuts, allowed=None, expected=None, queries=False, monitor=True, empties=(), short_reads=False):
+def feed_wrapper(data, cuts, allowed=None, expected=None, queries=False, monitor=True, empties=(), short_reads=False,
+                 source_faults=()):
     """Drive InspectWrapper.read() with read sizes given by the cut positions; with short_reads the reader always asks
     for 64 KiB and it is the source that returns the scheduled piece sizes."""
     F = fi()
-    src = RecordingSource(data, plan=[b - a for a, b in chunks_of(len(data), cuts)] if short_reads else None)
+    src = RecordingSource(data, plan=[b - a for a, b in chunks_of(len(data), cuts)] if short_reads else None,
+                          fail_at=source_faults)
+
+    def _read(w, size):
+        # a reader that retries once when the source reports a transient error
+        try:
+            return w.read(size)
+        except TimeoutError:
+            return w.read(size)
     w = F.InspectWrapper(src, expected_format=expected, allowed_formats=allowed)
     mons = {i.NAME: RegionMonitor(data) for i in w._inspectors} if monitor else {}
     decisions = []
@@ -263,7 +286,7 @@ def feed_wrapper(data, cuts, allowed=None, expected=None, queries=False, monitor
         for idx, (a, b) in enumerate(chunks_of(n, cuts)):
             if idx in empties:
                 w.read(0)
-            out.append(w.read(max(b - a, 65536) if short_reads else b - a))
+            out.append(_read(w, max(b - a, 65536) if short_reads else b - a))
             for i in w._inspectors:
                 if monitor and i not in w._errored_inspectors:
                     mons[i.NAME].check(i, b)
